@@ -37,6 +37,28 @@ def or_leaves(e, acc):
     return acc
 
 
+def word_vars(fn, tree, depth=3):
+    """Local variables a compare-exchange's desired value is computed from.  A const local that is itself computed from another local
+    ('auto const desired = old_state | flag') stands for that local; a local initialised from a load of the atomic stays itself."""
+    decls, written = {}, set()
+    for _, _, e in fn.all_events():
+        if e.get("k") == "decl" and e.get("init") is not None:
+            decls.setdefault(e["var"], []).append(e["init"])
+        elif e.get("k") == "write":
+            written.add(P(e["lhs"]))
+    isvar = lambda y: isinstance(y, dict) and y.get("k") == "var" and not y.get("global") and "val" not in y
+    out = set()
+    work = [(x.get("name"), depth) for x in subexprs(tree, isvar)]
+    while work:
+        n, d = work.pop()
+        inner = [x.get("name") for init in decls.get(n, []) for x in subexprs(init, isvar)] if (len(decls.get(n, [])) == 1 and n not in written and d > 0) else []
+        if inner:
+            work += [(m, d - 1) for m in inner]
+        else:
+            out.add(n)
+    return out
+
+
 def run(rep, tier):
     from .common import unknown_helpers_are_not_violations
     unknown_helpers_are_not_violations(rep, ("C14.R2", "C14.R3", "C14.R4", "C14.R8", "C14.R9", "C14.R10", "C14.R12"))
@@ -168,7 +190,7 @@ def run(rep, tier):
             E = P(cev["args"][0])
             from engine.kinds import expand_locals as _xl8
             # a desired value kept in a const local ('auto const desired = old | flag; cas(expected, desired)') reads like the expression itself
-            dvars = sorted({x.get("name") for x in subexprs(_xl8(fn, cev["args"][1]), lambda y: isinstance(y, dict) and y.get("k") == "var" and not y.get("global") and "val" not in y)})
+            dvars = sorted(word_vars(fn, cev["args"][1]))
             if len(dvars) != 1:
                 raise AnalysisBroken("%s: cannot identify the word the desired value %s is computed from" % (fn.qname, T(cev["args"][1])))
             W = dvars[0]
@@ -616,11 +638,12 @@ def r9_rules(rep, F, get):
             raise AnalysisBroken("%s: compare-exchange on state_ not found" % fn.qname)
         exp_vars = set(strip(e["args"][0]).get("name") for _, _, e in cas if strip(e["args"][0]).get("k") == "var")
         from engine.kinds import expand_locals as _xl9
-        des9 = {id(e): _xl9(fn, e["args"][1]) for _, _, e in cas}
+        des9 = {id(e): word_vars(fn, e["args"][1]) for _, _, e in cas}
+        params9 = set(p_["name"] for p_ in fn.params)
         for _, _, e in cas:
-            for x in subexprs(des9[id(e)], lambda y: isinstance(y, dict) and y.get("k") == "var"):
-                if x.get("name") not in exp_vars and not x.get("param") and re.match(r"^\w+$", str(x.get("name", ""))):
-                    words.add(x.get("name"))
+            for nm in des9[id(e)]:
+                if nm not in exp_vars and nm not in params9 and re.match(r"^\w+$", str(nm)):
+                    words.add(nm)
         words -= exp_vars
         if not words:
             # the function keeps a single local (the exchange's 'expected' operand): a failed exchange refreshes it by itself
@@ -641,7 +664,7 @@ def r9_rules(rep, F, get):
             for w in sorted(words):
                 readers = [b for b in comp if fn.blocks[b].cond is not None and re.search(r"(^|[^\w.>])%s($|[^\w])" % re.escape(w), cond_atoms(fn.blocks[b].cond)[0])]
                 # the compare-exchange itself reads the word too (its desired value)
-                readers += [b for b, i, e in cas if b in comp and any(x.get("name") == w for x in subexprs(des9[id(e)], lambda y: isinstance(y, dict) and y.get("k") == "var"))]
+                readers += [b for b, i, e in cas if b in comp and w in des9[id(e)]]
                 if not readers:
                     continue
                 fresh_blocks = set(b for b in comp if any(fresh_write(e, w) for e in fn.blocks[b].events))
